@@ -164,7 +164,8 @@ func rawState(l *sqlLexer) stateFn {
 			// and # ... as well
 			return oneLineCommentState
 		case utf8.RuneError:
-			if width != replacementcharacterwidth {
+			// the end of the text; an invalid byte (width 1) is a byte like any other
+			if width == 0 {
 				if l.pos-l.start > 0 {
 					l.parts = append(l.parts, l.src[l.start:l.pos])
 					l.start = l.pos
@@ -193,7 +194,8 @@ func singleQuoteState(l *sqlLexer) stateFn {
 			}
 			l.pos += width
 		case utf8.RuneError:
-			if width != replacementcharacterwidth {
+			// the end of the text; an invalid byte (width 1) is a byte like any other
+			if width == 0 {
 				if l.pos-l.start > 0 {
 					l.parts = append(l.parts, l.src[l.start:l.pos])
 					l.start = l.pos
@@ -221,7 +223,8 @@ func doubleQuoteState(l *sqlLexer) stateFn {
 			}
 			l.pos += width
 		case utf8.RuneError:
-			if width != replacementcharacterwidth {
+			// the end of the text; an invalid byte (width 1) is a byte like any other
+			if width == 0 {
 				if l.pos-l.start > 0 {
 					l.parts = append(l.parts, l.src[l.start:l.pos])
 					l.start = l.pos
@@ -249,7 +252,8 @@ func backtickState(l *sqlLexer) stateFn {
 			}
 			l.pos += width
 		case utf8.RuneError:
-			if width != replacementcharacterwidth {
+			// the end of the text; an invalid byte (width 1) is a byte like any other
+			if width == 0 {
 				if l.pos-l.start > 0 {
 					l.parts = append(l.parts, l.src[l.start:l.pos])
 					l.start = l.pos
@@ -301,7 +305,8 @@ func escapeStringState(l *sqlLexer) stateFn {
 			}
 			l.pos += width
 		case utf8.RuneError:
-			if width != replacementcharacterwidth {
+			// the end of the text; an invalid byte (width 1) is a byte like any other
+			if width == 0 {
 				if l.pos-l.start > 0 {
 					l.parts = append(l.parts, l.src[l.start:l.pos])
 					l.start = l.pos
@@ -323,7 +328,8 @@ func oneLineCommentState(l *sqlLexer) stateFn {
 		case '\n':
 			return rawState
 		case utf8.RuneError:
-			if width != replacementcharacterwidth {
+			// the end of the text; an invalid byte (width 1) is a byte like any other
+			if width == 0 {
 				if l.pos-l.start > 0 {
 					l.parts = append(l.parts, l.src[l.start:l.pos])
 					l.start = l.pos
@@ -359,7 +365,8 @@ func multilineCommentState(l *sqlLexer) stateFn {
 			l.nested--
 
 		case utf8.RuneError:
-			if width != replacementcharacterwidth {
+			// the end of the text; an invalid byte (width 1) is a byte like any other
+			if width == 0 {
 				if l.pos-l.start > 0 {
 					l.parts = append(l.parts, l.src[l.start:l.pos])
 					l.start = l.pos
